@@ -75,7 +75,13 @@ FAMILIES = {
     "mul1_elim":   dict(pat=O("Mul", V(0), C(1.0)), tr="identity", nv=1),
     "add0_elim":   dict(pat=O("Add", V(0), C(0.0)), tr="identity", nv=1),
     "mul1_node":   dict(pat=O("Relu", V(0)), tr="mul1_node", nv=1),                # x -> x * Constant(1)
-    "add0_init":   dict(pat=O("Abs", V(0)), tr="add0_init", nv=1),                 # x -> x + new initializer 0 (fresh name)
+    "add0_init":   dict(pat=O("Abs", V(0)), tr="add0_init", nv=1, new_init=True),  # x -> x + new initializer 0: op.initializer(unnamed tensor, name=fresh)
+    # every other way the public API creates an initializer (names chosen fresh: the known clash classes are not triggered)
+    "init_named":  dict(pat=O("Abs", V(0)), tr="init_named", nv=1, new_init=True),  # op.initializer(named tensor)             -> the tensor's name
+    "init_both":   dict(pat=O("Abs", V(0)), tr="init_both", nv=1, new_init=True),   # op.initializer(named tensor, name=other) -> the explicit name
+    # the tensor OBJECT of a matched constant (named after it; other nodes may still use the constant) under a fresh explicit name
+    "init_copy":   dict(pat=O("Sub", V(0), V(1)), tr="init_copy", nv=2, const_var=1, new_init=True, shared_const=True),
+    "init_copy_keep": dict(pat=O("Sub", V(0), V(1)), tr="init_copy", nv=2, const_var=1, new_init=True, shared_const=True, keep=True),
     "split":       dict(pat=O("Split", V(0), axis=0, num_outputs=2), tr="reemit", nv=1, nout=2),
     "chain2_keep": dict(pat=O("Neg", O("Abs", V(0))), tr="reemit", nv=1, keep=True),
     "bin_keep":    dict(pat=O("Add", O("Abs", V(0)), V(1)), tr="reemit", nv=2, keep=True),
@@ -103,6 +109,10 @@ _DAG = {
     "dag3_r_fn":  dict(pat=O("Add", _A, O("Mul", _T, _A)), tr="call", nv=1, as_function=True, fn="TriR"),
     # two output nodes sharing a producer
     "two_out":    dict(pat=O("Neg", _A), roots=[O("Neg", _A), O("Relu", _A)], tr="reemit", nv=1),
+    "two_out_r":  dict(pat=O("Relu", _A), roots=[O("Relu", _A), O("Neg", _A)], tr="reemit", nv=1),
+    "two_out_keep": dict(pat=O("Neg", _A), roots=[O("Neg", _A), O("Relu", _A)], tr="reemit", nv=1, keep=True),
+    # two output nodes that share only the pattern input
+    "two_out_x":  dict(pat=O("Neg", V(0)), roots=[O("Neg", V(0)), O("Abs", V(0))], tr="reemit", nv=1),
     "two_out_fn": dict(pat=O("Neg", _A), roots=[O("Neg", _A), O("Relu", _A)], tr="call", nv=1, as_function=True, fn="NegRelu"),
     # the replacement introduces a domain the host does not import (a real contrib kernel: x * Sigmoid(1.0 * x))
     "silu_ms":    dict(pat=O("Mul", V(0), O("Sigmoid", V(0))), tr="quickgelu", nv=1, approx=True, new_domain="com.microsoft"),
@@ -212,6 +222,20 @@ class RuleBox:
                 box.init_counter += 1
                 zero = op.initializer(ir.tensor(np.array(0.0, dtype=np.float32)), name=f"{box.name}_zero_{box.init_counter}")
                 out = op.Add(emit(op, spec["pat"], env), zero)
+            elif tr == "init_named":
+                box.init_counter += 1
+                zero = op.initializer(ir.tensor(np.zeros([3], dtype=np.float32), name=f"{box.name}_tz_{box.init_counter}"))
+                out = op.Add(emit(op, spec["pat"], env), zero)
+            elif tr == "init_both":
+                box.init_counter += 1
+                zero = op.initializer(ir.tensor(np.zeros([1, 3], dtype=np.float32), name=f"{box.name}_tensor_{box.init_counter}"),
+                                      name=f"{box.name}_nz_{box.init_counter}")
+                out = op.Add(emit(op, spec["pat"], env), zero)
+            elif tr == "init_copy":
+                box.init_counter += 1
+                c = env[spec["const_var"]]
+                copy_ = op.initializer(c.const_value, name=f"{c.name}_cp_{box.name}_{box.init_counter}")
+                out = op.Sub(env[0], copy_)
             elif tr == "call":
                 out = getattr(op, spec["fn"])(*env, _domain=DOM_FN, _outputs=len(roots) if roots else 1)
             elif tr == "quickgelu":
@@ -387,6 +411,12 @@ class HostGen:
                     ns.insert(pos if rng.random() < 0.5 else len(ns), HNode("Relu", [iv], [extra]))
                     publish.append(extra)
                     self.tags.add("intermediate-extra-consumer")
+                if cv is not None and rng.random() < 0.5:
+                    # the constant operand is shared with a node outside the match
+                    extra = self.fresh()
+                    ns.insert(rng.randrange(len(inst_nodes), len(ns) + 1), HNode("Max", [rng.choice(avail), env[cv]], [extra]))
+                    publish.append(extra)
+                    self.tags.add("const-shared-with-unmatched-node")
                 recent = (recent + root_vals)[-3:]
                 self.tags.add("planted:" + fam)
                 if env and any(e in [o for x in ns for o in x.outs] for e in env):
@@ -616,3 +646,147 @@ def all_levels(host: Host):
     yield from walk(host.main, "main", True)
     for fname, fg in host.functions:
         yield from walk(fg, f"function:{fname}", True)
+
+
+# ----------------------------------------------------------------------------- container hosts (instance in ONE container only)
+
+CONTAINERS = ["function", "function/If", "function/Loop", "If", "Loop", "main"]
+ORDER_MODES = [("rev", "early"), ("fwd", "early"), ("rev", "late"), ("fwd", "late"), ("rnd", "rnd")]
+NEUTRAL_UNARY = ["Floor", "Ceil"]        # ops no family's pattern mentions
+NEUTRAL_BINARY = "Max"
+
+
+def linear_extension(nodes, avail, rng, inst_order, consumer_pos):
+    """One topological order of `nodes` (HNode list; `avail` = names defined outside).  inst_order: "fwd" / "rev" / "rnd"
+    = preference among the ready nodes of the instance; consumer_pos: "early" (a ready consumer goes first: consumers of a
+    later pattern output land BEFORE the remaining nodes of the instance) / "late" (instance first) / "rnd"."""
+    defined = set(avail)
+    left = list(enumerate(nodes))
+    out = []
+    while left:
+        ready = [(k, n) for k, n in left if all((not i) or i in defined for i in n.ins)]
+        assert ready, "cyclic instance"
+        inst = [(k, n) for k, n in ready if n.planted]
+        rest = [(k, n) for k, n in ready if not n.planted]
+        if consumer_pos == "rnd" or inst_order == "rnd":
+            pick = rng.choice(ready)
+        else:
+            first, second = (rest, inst) if consumer_pos == "early" else (inst, rest)
+            pool = first or second
+            if pool is inst:
+                pick = pool[-1] if inst_order == "rev" else pool[0]
+            else:
+                pick = pool[0]
+        left.remove(pick)
+        out.append(pick[1])
+        defined.update(pick[1].outs)
+    return out
+
+
+def container_host(family, where, rng, mode, shared_const=False, twice=False):
+    """A host whose ONLY instance(s) of the family sit in one container: the body of a model-local function, an If branch
+    or a Loop body inside that function, an If branch / a Loop body of the main graph, or the main graph itself.  Around
+    the instance: a reader of each pattern input and a consumer of each pattern output (neutral ops), ordered by `mode`;
+    shared_const: the constant operand of the pattern is also read by a node outside the match; twice: two instances
+    sharing their operands (and the constant).  Returns (Host, description)."""
+    spec = FAMILIES[family]
+    gen = HostGen(rng, [family])
+    gen.counter = 500
+    in_fn = where.startswith("function")
+    kind = where.split("/")[-1] if "/" in where or where in ("If", "Loop") else "top"
+    main_inits = {}
+    top_nodes = []           # nodes of the container's top level (Constant nodes the nested level reads)
+    a, b = ("fa", "fb") if in_fn else ("x0", "x1")
+    cond, trip = ("fcond", "ftrip") if in_fn else ("cond", "trip")
+    s_in = "s_in"
+    env_vals = [s_in if kind == "Loop" else a, b]
+
+    def consts(val, out_nodes):
+        # visible with a const_value: an initializer of the main graph, or a Constant node at the TOP level of the container
+        if not in_fn and rng.random() < 0.5:
+            name = f"k{len(main_inits)}"
+            main_inits[name] = np.array(val, dtype=np.float32)
+            return name
+        name = gen.fresh("c")
+        (top_nodes if kind != "top" else out_nodes).append(HNode("Constant", [], [name], {"value": np.array(val, dtype=np.float32)}))
+        return name
+
+    body = []
+    outs_all = []
+    const_names = []
+    for rep in range(2 if twice else 1):
+        env = [env_vals[i % 2] for i in range(spec["nv"])]
+        if spec["nv"] == 1 and rep == 1:
+            env = [env_vals[1]]
+        cv = spec.get("const_var")
+        pre = []
+        if cv is not None:
+            if rep == 0 or not const_names:
+                env[cv] = consts(float(rng.choice([1.0, 2.0, -1.0])), pre)
+                const_names.append(env[cv])
+            else:
+                env[cv] = const_names[0]
+        ns, outs = gen.instantiate(spec["pat"], env, consts, family, spec.get("nout", 1), spec.get("roots"))
+        for n in pre:
+            n.planted = family
+        body += pre + ns
+        if spec.get("nout", 1) == 2:
+            cat = gen.fresh()
+            body.append(HNode("Concat", list(outs), [cat], {"axis": 0}))
+            outs = [cat]
+        outs_all += outs
+    tail = []
+    for k, o in enumerate(outs_all):
+        c = gen.fresh("u")
+        body.append(HNode(NEUTRAL_UNARY[k % 2], [o], [c]))
+        tail.append(c)
+    for k, v in enumerate(dict.fromkeys(env_vals)):
+        r = gen.fresh("r")
+        body.append(HNode(NEUTRAL_UNARY[(k + 1) % 2], [v], [r]))
+        tail.append(r)
+    if shared_const:
+        for cn in [x for n in body if n.op == "Constant" for x in n.outs] + sorted(main_inits) + [x for n in top_nodes for x in n.outs]:
+            r = gen.fresh("w")
+            body.append(HNode(NEUTRAL_BINARY, [env_vals[0], cn], [r]))
+            tail.append(r)
+    acc = tail[0]
+    for v in tail[1:]:
+        nv = gen.fresh("m")
+        body.append(HNode(NEUTRAL_BINARY, [acc, v], [nv]))
+        acc = nv
+    visible = [a, b, s_in] + sorted(main_inits) + [o for n in top_nodes for o in n.outs]
+    body = linear_extension(body, visible, rng, *mode)
+
+    if kind == "top":
+        level_nodes, level_out = body, acc
+    elif kind == "If":
+        eo = gen.fresh("e")
+        tb = HGraph([], body, [(acc, "t")])
+        eb = HGraph([], [HNode(NEUTRAL_BINARY, [a, b], [eo])], [(eo, "t")])
+        io = gen.fresh("io")
+        pre_r, post_r = gen.fresh("r"), gen.fresh("r")
+        level_nodes = top_nodes + [HNode("Ceil", [a], [pre_r]),
+                                   HNode("If", [cond], [io], {}, {"then_branch": tb, "else_branch": eb}),
+                                   HNode(NEUTRAL_BINARY, [io, pre_r], [post_r])]
+        level_out = post_r
+    else:
+        it, ci, co = gen.fresh("it"), gen.fresh("ci"), gen.fresh("co")
+        body.append(HNode("Identity", [ci], [co]))
+        lo = gen.fresh("lo")
+        pre_r, post_r = gen.fresh("r"), gen.fresh("r")
+        lb = HGraph([(it, "i"), (ci, "b"), (s_in, "t")], body, [(co, "b"), (acc, "t")])
+        level_nodes = top_nodes + [HNode("Ceil", [a], [pre_r]),
+                                   HNode("Loop", [trip, "", a], [lo], {}, {"body": lb}),
+                                   HNode(NEUTRAL_BINARY, [lo, pre_r], [post_r])]
+        level_out = post_r
+    base_ins = [("x0", "t"), ("x1", "t"), ("cond", "b"), ("trip", "i")]
+    if in_fn:
+        fg = HGraph([("fa", "t"), ("fb", "t"), ("fcond", "b"), ("ftrip", "i")], level_nodes, [(level_out, "t")])
+        main = HGraph(base_ins, [HNode("Ceil", ["x0"], ["mpre"]),
+                                 HNode("F0", ["mpre", "x1", "cond", "trip"], ["mcall"], domain=DOM_HOST),
+                                 HNode(NEUTRAL_BINARY, ["mcall", "x1"], ["mout"])], [("mout", "t")])
+        host = Host(main, [("F0", fg)], {"container:" + where})
+    else:
+        main = HGraph(base_ins, level_nodes, [(level_out, "t")], main_inits)
+        host = Host(main, [], {"container:" + where})
+    return host
